@@ -285,6 +285,7 @@ def run(chk: Check, only_numeric: bool = False) -> None:
         run_inherited_class_attributes(chk, ix)
         run_dict_helpers_dispatch_to_same_method(chk, ix, funcs)
         run_loop_carried_registers_created_once(chk, ix)
+        run_suspension_values_are_op_values(chk, ix)
         pass_order(chk, ix)
 
 
@@ -1006,3 +1007,56 @@ def run_loop_carried_registers_created_once(chk: Check, ix) -> None:
                             r20.violation(key, f.loc(cr), f"`{norm(cr)}` is reached under {[norm(t)[:40] for t in pos]} with no test that `{v}` is still None: every iteration replaces the register, and the fact recorded for earlier arguments ('one of them was missing') is lost for all but the next argument")
     if n < 1:
         raise AnalysisError("irbuild: no lazily created loop-carried register found (expected seen_empty_reg in _construct_varargs)")
+
+
+def run_suspension_values_are_op_values(chk: Check, ix) -> None:
+    """R05.21: the value of a yield / await / yield-from expression is an op result, not the register that receives it."""
+    r21 = chk.rule("R05.21", "irbuild/statement.py: emit_yield returns the generator's send-argument register and emit_yield_from_or_await a local result Register. Registers are not spilled by transform/spill.py ('no Registers at all') and the send-argument register is overwritten by the next send(), so a value that is still needed after another suspension of the same expression (`[(yield 1), (yield 2)]`, `[await a, await b]`) must be an op value. Each expression transformer (transform_yield_expr / transform_yield_from_expr / transform_await_expr) therefore returns the result of `builder.add(<Op>(...))` (directly or through a helper whose returns are all of that form), never the direct result of a function that returns a Register", floor=3)
+    m = ix.module("mypyc.irbuild.statement")
+
+    def returns_register(fn) -> bool:
+        regs = {a.targets[0].id for a in ast.walk(fn.node) if isinstance(a, ast.Assign) and len(a.targets) == 1 and isinstance(a.targets[0], ast.Name) and isinstance(a.value, ast.Call) and call_name(a.value) == "Register"}
+        for r in ast.walk(fn.node):
+            if isinstance(r, ast.Return) and r.value is not None:
+                v = r.value
+                if isinstance(v, ast.Call) and isinstance(v.func, ast.Attribute) and v.func.attr == "read" and v.args:
+                    v = v.args[0]  # builder.read(reg) is the register itself
+                if isinstance(v, ast.Name) and v.id in regs:
+                    return True
+                if isinstance(r.value, ast.Attribute) and r.value.attr.endswith("_reg"):
+                    return True
+        return False
+
+    def is_op_value(e: ast.expr, fn, depth=0) -> bool:
+        if isinstance(e, ast.Call) and isinstance(e.func, ast.Attribute) and e.func.attr == "add" and e.args and isinstance(e.args[0], ast.Call):
+            return True
+        if isinstance(e, ast.Call) and isinstance(e.func, ast.Name) and e.func.id in m.functions and depth < 2:
+            h = m.functions[e.func.id]
+            if returns_register(h):
+                return False
+            rets = [r.value for r in ast.walk(h.node) if isinstance(r, ast.Return) and r.value is not None]
+            return bool(rets) and all(is_op_value(v, h, depth + 1) for v in rets)
+        if isinstance(e, ast.Name):
+            defs = [a.value for a in ast.walk(fn.node) if isinstance(a, ast.Assign) and len(a.targets) == 1 and isinstance(a.targets[0], ast.Name) and a.targets[0].id == e.id]
+            return len(defs) == 1 and is_op_value(defs[0], fn, depth)
+        return False
+
+    producers = [n for n in ("emit_yield", "emit_yield_from_or_await") if n in m.functions and returns_register(m.functions[n])]
+    if len(producers) < 2:
+        raise AnalysisError(f"statement.py: emit_yield / emit_yield_from_or_await no longer return registers ({producers}): R05.21 needs re-reading")
+    n = 0
+    for name in ("transform_yield_expr", "transform_yield_from_expr", "transform_await_expr"):
+        f = m.functions.get(name)
+        if f is None:
+            raise AnalysisError(f"statement.py: {name} not found")
+        for r in ast.walk(f.node):
+            if not (isinstance(r, ast.Return) and r.value is not None):
+                continue
+            n += 1
+            key = f"{name}: the expression's value is an op result"
+            if is_op_value(r.value, f):
+                r21.ok(key, f.loc(r))
+            else:
+                r21.violation(key, f.loc(r), f"`{norm(r.value)[:70]}` hands the receiving register itself to the enclosing expression: a later suspension in the same expression overwrites it (`[(yield 1), (yield 2)]` gives ['b', 'b']) or loses it (`[await a, await b]` with object-typed awaitables gives [<NULL>, 'b'])")
+    if n < 3:
+        raise AnalysisError(f"only {n} returns found in the yield/await expression transformers")
